@@ -640,6 +640,19 @@ def check_C13(cx):
         # effective fitting state for the last call: the last K decides (a K below 2 switches fitting off and keeps the size)
         ks = [int(x.split()[2]) for x in h if x.startswith("K ")]
         onoff.append((len(hists) - 1, t2, ks[-1] if ks[-1] >= 2 else 0))
+    # a fitting call that fails after some of its lines were laid out, directly followed (no asm_set_offset, no setter) by another call:
+    # the second call starts at the unchanged offset and is laid out from there
+    afterfail = []
+    for _ in range(200 if cx.tier == "quick" else 2000):
+        c = r.choice([2, 3, 5, 7, 8, 9, 12, 16])
+        p0 = r.randrange(0, 40)
+        good1 = [r.choice(pool) for _ in range(r.choice([1, 2, 4]))]
+        t1 = b"\n".join(good1 + [r.choice([b"bogus rax, rbx", b"mov rax, [rbx", b"add rax, rbz"])] + [r.choice(pool)])
+        t2 = b"\n".join(r.choice(pool) for _ in range(3))
+        h = ["N 0 400 cc", "K 0 %d" % c, "O 0 %d" % p0, "A 0 %s" % cases.hexs(t1), "G 0", "A 0 %s" % cases.hexs(t2), "G 0", "D 0 0 400", "F 0"]
+        hists.append(h)
+        meta.append(None)
+        afterfail.append((len(hists) - 1, t2, c, p0))
     ops, out = tie_api_mod_lf(cx, impl, hists, "C13 chunk fitting histories")
     res = impl_line_results(impl, set((14, l) for m in meta if m for l in split_lines(m[1])))
     pos, nviol, npadded = 0, 0, 0
@@ -668,6 +681,23 @@ def check_C13(cx):
     starts = [0]
     for h in hists:
         starts.append(starts[-1] + len(h))
+    res3 = impl_line_results(impl, set((14, l) for _, t2, _, _ in afterfail for l in split_lines(t2)))
+    for hi, t2, c, p0 in afterfail:
+        h = hists[hi]
+        o = out[starts[hi]:starts[hi] + len(h)]
+        if len(o) < len(h):
+            continue
+        codes, bad = line_codes(res3, 14, t2)
+        if bad is not None:
+            continue
+        exp = spec_fit_layout(codes, c, p0, nops)
+        got = bytes.fromhex(o[-2]) if o[-2] != "-" else b""
+        if not (o[3].split()[0] == "1" and o[4] == str(p0) and o[5].split()[0] == "0" and int(o[6]) == p0 + len(exp) and
+                got[p0:p0 + len(exp)] == exp) and nviol < 8:
+            nviol += 1
+            cx.violations.append({"kind": "fitting-after-failed-call", "chunk": c, "start_offset": p0, "program": t2.decode("latin1"),
+                                  "expected": exp.hex(), "got": got[p0:p0 + len(exp) + 8].hex(), "results": [o[3], o[4], o[5], o[6]],
+                                  "what": "after a fitting call that failed part-way, the next call is not laid out from the unchanged offset", "history": h})
     res2 = impl_line_results(impl, set((14, l) for _, t2, _ in onoff for l in split_lines(t2)))
     for hi, t2, ceff in onoff:
         h = hists[hi]
@@ -738,6 +768,23 @@ def check_C14(cx):
         h = ["N 0 400 cc"] + setopt + ["O 0 %d" % p0, "C 0 %d %s 1" % (c, cases.hexs(text)), "G 0", "D 0 0 400", "F 0"]
         hists.append(h)
         meta.append(None)
+    # chunk sizes around and beyond the CURRENT length of the library-managed buffer, in calls that make it grow: boundaries beyond the
+    # old end of the buffer count as well
+    lpool = [b"mov rax, [rsi]", b"mov rax, 0x1122334455667788", b"add rax, rbx", b"vpaddb ymm1, ymm2, [rax+r9*4+0x100]", b"push r12", b"ret"]
+    big_meta = []
+    for c in (6019, 6020, 6021, 6033, 6500, 7001, 12020, 12021, 20000):
+        for p0 in (0, 5990):
+            body, total = [], 0
+            pres0 = None
+            while total < 14500:
+                l = r.choice(lpool)
+                body.append(l)
+                total += {b"mov rax, [rsi]": 3, b"mov rax, 0x1122334455667788": 10, b"add rax, rbx": 3,
+                          b"vpaddb ymm1, ymm2, [rax+r9*4+0x100]": 10, b"push r12": 2, b"ret": 1}[l]
+            text = b"\n".join(body)
+            hists.append(["N 0 -", "O 0 %d" % p0, "C 0 %d %s 1" % (c, cases.hexs(text)), "G 0", "F 0"])
+            meta.append(None)
+            big_meta.append((len(hists) - 1, text, c, p0))
     ops, out = tie_api_mod_lf(cx, impl, hists, "C14 counting histories")
     res = impl_line_results(impl, set((14, l) for m in meta if m for l in split_lines(m[1])))
     pos, nviol, ncross = 0, 0, 0
@@ -766,6 +813,25 @@ def check_C14(cx):
                                   "expected_count": [exp, exp2], "got": [dest, dest2], "offsets": [off, plain_off],
                                   "what": "count/bytes of the counting call differ from the number of instructions that span two chunks / "
                                           "from plain assembly, or the following plain call failed", "history": h})
+    starts = []
+    acc = 0
+    for h in hists:
+        starts.append(acc)
+        acc += len(h)
+    bres = impl_line_results(impl, set((14, l) for l in lpool))
+    for hi, text, c, p0 in big_meta:
+        o = out[starts[hi]:starts[hi] + len(hists[hi])]
+        if len(o) < len(hists[hi]):
+            continue
+        codes, bad = line_codes(bres, 14, text)
+        exp = spec_cross_count(codes, c, p0)
+        rc, off, dest = o[2].split()
+        if (rc != "0" or int(dest) != exp or int(off) != p0 + sum(map(len, codes))) and nviol < 8:
+            nviol += 1
+            cx.violations.append({"kind": "count-growing-buffer", "chunk": c, "start_offset": p0, "program_bytes": sum(map(len, codes)),
+                                  "expected_count": exp, "got": dest, "rc": rc, "offset": off,
+                                  "what": "count of a call that grows the library-managed buffer differs from the number of instructions that span "
+                                          "two chunks", "history": [x[:80] for x in hists[hi]]})
     cx.nontrivial.update(m for m in meta if m)
     cx.cov["samples"] = [hists[20], hists[-1]]
     cx.dist = {"histories_with_fitting_switched_on_and_off_before_the_call": sum(1 for m in meta if m and m[4]),
@@ -2358,6 +2424,23 @@ def check_C18(cx):
                                       "what": "data race reported on library state" if races else "a thread's results differ from running alone"})
             elif m:
                 cx.count(int(m.group(1)) * n, [])
+    # the debug listing (asm_set_debug) together with chunk fitting in every thread
+    for flavour in ("tsan", "o2"):
+        impl = build_impl(cx, name="thrdrv", flavour=flavour, extra_flags=(THR_WRAP,))
+        env = dict(os.environ, TSAN_OPTIONS="halt_on_error=0 exitcode=66 report_signal_unsafe=0")
+        p = subprocess.run([impl, "debug", "8" if quick else "32", "3" if quick else "10"], stdout=subprocess.PIPE, stderr=subprocess.PIPE, env=env, timeout=3000)
+        out = p.stdout.decode("latin1").strip().split("\n")
+        err = p.stderr.decode("latin1")
+        races = err.count("WARNING: ThreadSanitizer")
+        m = re.search(r"debug threads=(\d+) rounds=\d+ steps=(\d+) mismatches=(\d+)", out[-1] if out else "")
+        runs.append([flavour, "debug", 0, out[-1] if out else ""])
+        if p.returncode != 0 or races or not m or m.group(3) != "0":
+            i = err.find("WARNING: ThreadSanitizer")
+            cx.violations.append({"kind": "threads", "build": flavour, "mode": "debug listing + chunk fitting", "exit": p.returncode, "tsan_reports": races,
+                                  "replay_cmd": "thrdrv debug 8 3", "result": out[-3:], "first_report": err[i:i + 1800] if i >= 0 else err[-600:],
+                                  "what": "data race reported on library state" if races else "a thread's results differ from running alone"})
+        elif m:
+            cx.count(int(m.group(2)) * int(m.group(1)), [])
     # deterministic interleavings (hook ALVERIF_INDEX_STORE): thread A makes the process's first create and is held after its k-th
     # index table store while thread B runs a complete job; every k, one process each (what happened before the first create of a
     # process cannot be re-entered later)
@@ -2476,9 +2559,31 @@ def check_C19(cx):
         files.append(("prog%d" % n, g.program(r.choice([3, 10, 40]))))
     files = [(nm, bytes(x for x in c if x != 0)) for nm, c in files]
     hists, meta = [], []
-    for nm, content in files:
+    for fi, (nm, content) in enumerate(files):
         path = os.path.join(tmp, nm)
         open(path, "wb").write(content)
+        # other names for the same file: through a symbolic link (short and long target strings), a hard link, a path with ./ and ../
+        kind = fi % 5
+        if kind == 1:
+            lk = os.path.join(tmp, "l_" + nm)
+            if os.path.lexists(lk):
+                os.unlink(lk)
+            os.symlink(nm, lk)                                  # relative target: a few characters long
+            path = lk
+        elif kind == 2:
+            lk = os.path.join(tmp, "L_" + nm)
+            if os.path.lexists(lk):
+                os.unlink(lk)
+            os.symlink(os.path.join(tmp, ".", "adir", "..", nm), lk)    # a long target string
+            path = lk
+        elif kind == 3:
+            lk = os.path.join(tmp, "h_" + nm)
+            if os.path.lexists(lk):
+                os.unlink(lk)
+            os.link(path, lk)
+            path = lk
+        elif kind == 4:
+            path = os.path.join(tmp, "adir", "..", ".", nm)
         opt = r.choice(cases.OPTS)
         setopt = ["S %d mov %d" % (i, opt & 3) for i in (0, 1)] + ["S %d swap %d" % (i, (opt >> 2) & 1) for i in (0, 1)] + \
                  ["S %d nobase %d" % (i, (opt >> 3) & 1) for i in (0, 1)]
